@@ -116,7 +116,13 @@ SymC08(C, E) ==
   \/ \E s2 \in SchedsOf(C) : C.tmo[s2] < 0 /\ \E d \in DiagsAt(E, s2) : E[d].v = "timeout"
 
 SymC09(C, E) ==
-  \E s \in SchedsOf(C) : \E p \in RunEnds(E, s) : E[p].k = "run-end" /\ E[p].v = "true" /\
+  \* a forever job is cancelled (or the run declared over) while a regular job of the same
+  \* scheduler has still to run: the run did not last until its last non-forever job
+  \/ \E s9 \in SchedsOf(C) : \E f \in KidsOf(C, s9) : \E k \in KidsOf(C, s9) :
+        /\ C.forever[f] /\ ~C.forever[k] /\ IsJobN(C, f)
+        /\ \E i \in Idx(E) : E[i].n = f /\ E[i].k = "cancel" /\ (FinPos(E, k) = 0 \/ FinPos(E, k) > i)
+        /\ \E p9 \in RunEnds(E, s9) : E[p9].k = "run-end" /\ E[p9].v = "true"
+  \/ \E s \in SchedsOf(C) : \E p \in RunEnds(E, s) : E[p].k = "run-end" /\ E[p].v = "true" /\
      \/ \E k \in KidsOf(C, s) : C.forever[k] /\ \E i \in Idx(E) : i > p /\ E[i].n = k /\ E[i].k \in {"start", "run-begin", "end", "raise"}
      \/ LET nf == {k \in KidsOf(C, s) : ~C.forever[k]} IN
           nf # {} /\ (\A k \in nf : FinPos(E, k) > 0) /\ ~HasStall(E) /\
